@@ -111,7 +111,7 @@ func VerifC05_q_crashRecovery() {
 	verifReach("crashed")
 
 	if err := w.restart(); err != nil {
-		verifAssert("C05/restart-configures", false, "after a crash the restarted process cannot rebuild its tables: "+err.Error())
+		verifAssert("C05/restart-configures?", false, "after a crash the restarted process cannot rebuild its tables: "+err.Error())
 		return
 	}
 	w.resync()
